@@ -277,6 +277,18 @@ SetRG(t, b) ==
         /\ UNCHANGED <<grad, acc, gmode, rmode, ctxs, stack, gstack, sweep, nbw>>
         /\ hist' = Rec([a |-> "setrg", t |-> t, b |-> b, err |-> err'])
 
+\* Tensor(t) / nn.Parameter(t) built from an existing leaf t that holds no gradient yet: a NEW leaf with the same value and
+\* flags - its own node of the graph with its own gradient, whatever storage the two objects share
+CopyLeaf(t) ==
+  /\ "copyleaf" \in Acts /\ CanAct /\ N < MaxNodes /\ t \in Nodes
+  /\ tape[t].op = "leaf" /\ tape[t].dt = "f" /\ grad[t] = GNone /\ gmode
+  /\ tape' = Append(tape, [tape[t] EXCEPT !.brm = rmode, !.ret = FALSE])
+  /\ grad' = Append(grad, GNone)
+  /\ acc' = Append(acc, Zeros(Size(t)))
+  /\ err' = ""
+  /\ UNCHANGED <<gmode, rmode, ctxs, stack, gstack, sweep, nbw>>
+  /\ hist' = Rec([a |-> "copyleaf", t |-> t, err |-> ""])
+
 RetainGrad(t) ==
   /\ "retain" \in Acts /\ CanAct /\ t \in Nodes
   /\ IF ~tape[t].rg THEN err' = "RuntimeError" /\ UNCHANGED tape
@@ -417,6 +429,7 @@ Next ==
   \/ \E t \in Nodes, b \in BOOLEAN : SetRG(t, b)
   \/ \E t \in Nodes : RetainGrad(t) \/ Detach(t) \/ ZeroT(t)
   \/ \E kind \in {"module", "optim"} : ZeroSet(kind)
+  \/ \E t \in Nodes : CopyLeaf(t)
   \/ \E kind \in {"ng", "rt"} : CtxBuild(kind)
   \/ \E c \in 1..Len(ctxs) : CtxEnter(c) \/ \E exc \in BOOLEAN : CtxExit(c, exc)
   \/ \E root \in Nodes : \E gsel \in GVecs(root) \cup {<<>>} : BackwardBegin(root, gsel)
